@@ -10,7 +10,7 @@ CONSTANTS
   Keeps = {FALSE}
   LPorts = {5060, 5070}
   Pools = {"two"}
-  Learns = {"none"}
+  Learns = {"none", "ua.p1real"}
   MustRRs = {FALSE}
   Recvs = {TRUE}
   HdrOrders = {"std", "from1st", "viaLast", "rr1st", "clenmid"}
